@@ -30,7 +30,11 @@ CONSTANTS NTests, Deviations, PreChoices,
           OptUniverse,       \* the options this configuration enumerates
           PreDebugChoices,   \* the caller's gc debug flags (sets of bits)
           GChoices,          \* what -G may name (non-empty sets of bits)
-          V4Choices          \* with --gc-after-test: verbosity >= 4 or not
+          V4Choices,         \* with --gc-after-test: verbosity >= 4 or not
+          NestChoices,       \* may the first test perform an in-process run itself
+          InnerOptUniverse,  \* the options such a nested run may be given
+          InnerEndings,      \* how its test phase may end
+          MaxNest            \* how many runs may be open inside the outermost one
 
 AllOpts == {"gc", "G", "A", "coverage", "profile", "buffer", "warnings", "D", "x"}
 Bits == {"DEBUG_STATS", "DEBUG_UNCOLLECTABLE", "DEBUG_SAVEALL"}
@@ -39,12 +43,25 @@ ASSUME /\ OptUniverse \subseteq AllOpts
        /\ PreDebugChoices \subseteq SUBSET Bits
        /\ GChoices \subseteq (SUBSET Bits) \ {{}}
        /\ V4Choices \subseteq BOOLEAN
+       /\ NestChoices \subseteq BOOLEAN /\ InnerOptUniverse \subseteq AllOpts
+       /\ MaxNest \in Nat
 
-VARIABLES Opts,        \* the option subset of this run (chosen in Init)
+(* NESTED RUNS.  A test may call zope.testrunner.run_internal itself (the     *)
+(* runner's own suite does; so does any project testing tooling built on it):  *)
+(* inside the body of a test of one run the whole pipeline runs again, with     *)
+(* options of its own, finding the globals as the enclosing run has them and    *)
+(* obliged to put back what IT found.  The variables below describe the run    *)
+(* that is executing now; the enclosing runs wait in `stack` (NestPush /        *)
+(* NestPop).  The P-clause is per run: g = g0 (what that run found) once it is   *)
+(* over; for the outermost run g0 = G0, the caller's state.                     *)
+VARIABLES Opts,        \* the option subset of the current run
           PreHooks,    \* which trace / profile functions the caller had installed
           PreDebug,    \* the gc debug flags the caller had on
           GBits,       \* the flags named with -G ({} without -G)
-          v4           \* "A" (--gc-after-test) given together with -vvvv
+          v4,          \* "A" (--gc-after-test) given together with -vvvv
+          g0,          \* the globals as the current run found them
+          stack,       \* the enclosing runs (records of their pipeline state)
+          nest         \* the first test of a run performs a run itself
 
 Globals == {"gcThreshold", "gcDebug", "tbFormat", "tbPrint", "sysTrace",
             "thrTrace", "settraceFn", "sysProfile", "warnFilters",
@@ -75,13 +92,24 @@ G0 == [x \in Globals |->
 (* "gcWinKbint": KeyboardInterrupt inside stopTest's cycle analysis of the last  *)
 (* test (only with --gc-after-test at verbosity >= 4; otherwise there is no     *)
 (* such place)                                                                 *)
+(* "profDirGone": the --profile-directory is removed while the tests run (by a   *)
+(* test, a layer tearDown): the profile cannot be written, Profiling's          *)
+(* global_teardown raises OSError and the run is aborted from its finally clause *)
 Endings == {"normal", "failing", "hookUp", "hookDown", "kbint", "stop", "postmortem", "redirKbint",
-            "gcWinKbint"}
+            "gcWinKbint", "profDirGone"}
+OkCombo(o, e) == /\ ("stop" = e <=> "x" \in o) /\ ("postmortem" = e => "D" \in o)
+                 /\ ("profDirGone" = e => "profile" \in o)
 
 VARIABLES g, saved, pc, idx, t, ending, exc, began, warnSaved,
           gcSaved      \* stopTest's local gc_opts
 vars == <<g, saved, pc, idx, t, ending, exc, began, warnSaved, gcSaved,
-          Opts, PreHooks, PreDebug, GBits, v4>>
+          Opts, PreHooks, PreDebug, GBits, v4, g0, stack, nest>>
+(* what a run installs (the objects of a nested run are its own: its buffer,   *)
+(* its tracer, its thresholds; the traceback functions are the same module     *)
+(* functions at every level)                                                   *)
+Mine == IF stack = <<>> THEN "runner" ELSE "inner"
+FreshSaved == [x \in Globals |-> IF x = "gcDebug" THEN {} ELSE "none"]
+TbSlot == {"tbFormat", "tbPrint"}
 
 (* -x changes nothing but how the loop is left, so it is enumerated together   *)
 (* with the ending it causes                                                   *)
@@ -89,11 +117,11 @@ Init == /\ Opts \in SUBSET OptUniverse /\ PreHooks \in PreChoices
         /\ PreDebug \in PreDebugChoices
         /\ GBits \in (IF "G" \in Opts THEN GChoices ELSE {{}})
         /\ v4 \in (IF "A" \in Opts THEN V4Choices ELSE {FALSE})
-        /\ g = G0
-        /\ saved = [x \in Globals |-> IF x = "gcDebug" THEN {} ELSE "none"]
+        /\ g = G0 /\ g0 = G0 /\ stack = <<>> /\ nest \in NestChoices
+        /\ saved = FreshSaved
         /\ pc = "enter" /\ idx = 0 /\ t = 0
         /\ ending \in Endings
-        /\ ("stop" = ending <=> "x" \in Opts) /\ ("postmortem" = ending => "D" \in Opts)
+        /\ OkCombo(Opts, ending)
         /\ ("gcWinKbint" = ending => "A" \in Opts /\ v4)
         /\ exc = "none" /\ began = FALSE
         /\ warnSaved = <<"none", "none">>
@@ -105,18 +133,18 @@ Set(gg, xs, v) == [x \in Globals |-> IF x \in xs THEN v ELSE gg[x]]
 WarnEnter ==
   /\ pc = "enter"
   /\ warnSaved' = <<g["warnFilters"], g["showwarning"]>>
-  /\ g' = IF "warnings" \in Opts THEN Set(g, {"warnFilters"}, "runner") ELSE g
+  /\ g' = IF "warnings" \in Opts THEN Set(g, {"warnFilters"}, Mine) ELSE g
   /\ pc' = "gsetup" /\ idx' = 1
   /\ UNCHANGED <<saved, t, ending, exc, began, gcSaved>>
 
 (* ---- feature hooks ------------------------------------------------------ *)
 GSetupEffect(f) ==
   CASE f = "Coverage" ->          \* TestTrace.start
-         /\ g' = Set(g, {"sysTrace", "thrTrace", "settraceFn"}, "runner")
+         /\ g' = Set(g, {"sysTrace", "thrTrace", "settraceFn"}, Mine)
          /\ UNCHANGED saved
     [] f = "Threshold" ->
          /\ saved' = [saved EXCEPT !["gcThreshold"] = g["gcThreshold"]]
-         /\ g' = Set(g, {"gcThreshold"}, "runner")
+         /\ g' = Set(g, {"gcThreshold"}, Mine)
     [] f = "Debug" ->
          \* gc.set_debug(<the -G flags>): the caller's flags are replaced, not
          \* extended ("DebugOrAndMask": OR-ed in here, masked out at teardown)
@@ -141,21 +169,22 @@ LSetup ==
   /\ pc = "lsetup"
   /\ IF idx <= NF
      THEN /\ g' = IF Features[idx] = "Profiling"
-                  THEN Set(g, {"sysProfile"}, "runner") ELSE g  \* profiler.enable
+                  THEN Set(g, {"sysProfile"}, Mine) ELSE g  \* profiler.enable
           /\ idx' = idx + 1 /\ UNCHANGED <<pc, began, t>>
      ELSE /\ pc' = "tstart" /\ began' = TRUE /\ t' = 1 /\ UNCHANGED <<g, idx>>
   /\ UNCHANGED <<saved, ending, exc, warnSaved, gcSaved>>
 
 (* ---- the test phase ------------------------------------------------------*)
 Last == t = NTests
-Arm(gg) == IF "buffer" \in Opts THEN Set(gg, {"stdout", "stderr"}, "runner") ELSE gg
+Arm(gg) == IF "buffer" \in Opts THEN Set(gg, {"stdout", "stderr"}, Mine) ELSE gg
 (* _restoreStdStreams puts the saved originals back whatever sys.stdout is by  *)
 (* then ("RestoreOnlyOwnBuffer": only if sys.stdout still is the runner's     *)
-(* buffer)                                                                    *)
+(* buffer); the originals are the streams the run found (inside an enclosing   *)
+(* run with --buffer: that run's buffer)                                       *)
 RestoreStreams(gg) ==
   IF "buffer" \notin Opts THEN gg
-  ELSE IF "RestoreOnlyOwnBuffer" \in Deviations /\ gg["stdout"] # "runner" THEN gg
-  ELSE Set(gg, {"stdout", "stderr"}, "init")
+  ELSE IF "RestoreOnlyOwnBuffer" \in Deviations /\ gg["stdout"] # Mine THEN gg
+  ELSE [x \in Globals |-> IF x \in {"stdout", "stderr"} THEN g0[x] ELSE gg[x]]
 
 TStart ==     \* TestResult.startTest: per-test layer hooks, then arm the capture
   /\ pc = "tstart"
@@ -166,7 +195,7 @@ TStart ==     \* TestResult.startTest: per-test layer hooks, then arm the captur
   /\ UNCHANGED <<saved, t, ending, began, warnSaved, gcSaved>>
 
 TBody ==      \* the test itself; it may change warnings filters for itself
-  /\ pc = "tbody"
+  /\ pc \in {"tbody", "tbodyN"}
   /\ \E fiddle \in BOOLEAN :
        LET g1 == IF fiddle THEN Set(g, {"warnFilters"}, "test") ELSE g
        IN g' = IF ending = "redirKbint" /\ Last THEN Set(g1, {"stdout"}, "test") ELSE g1
@@ -247,8 +276,8 @@ ETeardown ==
                          \* calling thread, over the sys hook restored just before
                          LET ds == "CoverageResetsTrace" \in Deviations
                              da == "CoverageStopAllThreads" \in Deviations
-                             thr == IF ds THEN "none" ELSE G0["thrTrace"]
-                             sy == IF ds THEN "none" ELSE IF da THEN thr ELSE G0["sysTrace"]
+                             thr == IF ds THEN "none" ELSE g0["thrTrace"]
+                             sy == IF ds THEN "none" ELSE IF da THEN thr ELSE g0["sysTrace"]
                          IN Set(Set(Set(g, {"sysTrace"}, sy), {"thrTrace"}, thr),
                                 {"settraceFn"}, "init")
                     [] Features[idx] = "Profiling" ->      \* profiler.disable
@@ -256,8 +285,11 @@ ETeardown ==
                          \* leaves a caller's sys.setprofile hook alone; on older
                          \* interpreters disable() clears it ("ProfileResetsHook",
                          \* not observable on the interpreter used here)
-                         Set(g, {"sysProfile"},
-                             IF "ProfileResetsHook" \in Deviations THEN "none" ELSE G0["sysProfile"])
+                         \* "ProfilerOffAtDump": no early disable; writing the
+                         \* profile (global_teardown) is relied on to stop it
+                         IF "ProfilerOffAtDump" \in Deviations THEN g
+                         ELSE Set(g, {"sysProfile"},
+                                  IF "ProfileResetsHook" \in Deviations THEN "none" ELSE g0["sysProfile"])
                     [] OTHER -> g
           /\ idx' = idx - 1 /\ UNCHANGED pc
      ELSE /\ pc' = "gteardown" /\ idx' = NF /\ UNCHANGED g
@@ -265,9 +297,19 @@ ETeardown ==
 
 Back(gg, xs) == [x \in Globals |-> IF x \in xs THEN saved[x] ELSE gg[x]]
 
+(* Profiling.global_teardown writes the profile first (dump_stats opens the    *)
+(* file, then stops the profiler and takes the statistics): with the directory *)
+(* gone it raises OSError - the remaining global_teardowns (features configured *)
+(* before Profiling) are skipped, catch_warnings still exits.                   *)
+(* "SharedSaveSlot": what Traceback replaced is kept in ONE module-level slot   *)
+(* (set at setup; put back and emptied at teardown) instead of on the feature   *)
+(* instance of the run: the tbFormat / tbPrint entries of `saved` are then not  *)
+(* part of a run's own state (see NestPush / NestPop).                          *)
 GTeardown ==
   /\ pc = "gteardown"
-  /\ IF idx >= 1
+  /\ IF idx >= 1 /\ Features[idx] = "Profiling" /\ ending = "profDirGone"
+     THEN /\ exc' = "oserror" /\ pc' = "warnexit" /\ UNCHANGED <<g, idx, saved>>
+     ELSE IF idx >= 1
      THEN /\ g' = CASE Features[idx] = "Threshold" -> Back(g, {"gcThreshold"})
                     [] Features[idx] = "Debug" ->
                          IF "DebugOrAndMask" \in Deviations
@@ -275,11 +317,20 @@ GTeardown ==
                          ELSE Back(g, {"gcDebug"})
                     [] Features[idx] = "Traceback" ->
                          IF "TracebackKeepsPrint" \in Deviations
-                         THEN Back(g, {"tbFormat"}) ELSE Back(g, {"tbFormat", "tbPrint"})
+                         THEN Back(g, {"tbFormat"})
+                         ELSE IF "SharedSaveSlot" \in Deviations /\ saved["tbFormat"] = "empty"
+                         THEN g
+                         ELSE Back(g, {"tbFormat", "tbPrint"})
+                    [] Features[idx] = "Profiling" ->
+                         IF "ProfilerOffAtDump" \in Deviations
+                         THEN Set(g, {"sysProfile"}, g0["sysProfile"]) ELSE g
                     [] OTHER -> g
-          /\ idx' = idx - 1 /\ UNCHANGED pc
-     ELSE /\ pc' = "warnexit" /\ UNCHANGED <<g, idx>>
-  /\ UNCHANGED <<saved, t, ending, exc, began, warnSaved, gcSaved>>
+          /\ saved' = IF Features[idx] = "Traceback" /\ "SharedSaveSlot" \in Deviations
+                      THEN [x \in Globals |-> IF x \in TbSlot THEN "empty" ELSE saved[x]]
+                      ELSE saved
+          /\ idx' = idx - 1 /\ UNCHANGED <<pc, exc>>
+     ELSE /\ pc' = "warnexit" /\ UNCHANGED <<g, idx, saved, exc>>
+  /\ UNCHANGED <<t, ending, began, warnSaved, gcSaved>>
 
 WarnExit ==
   /\ pc = "warnexit"
@@ -290,10 +341,55 @@ WarnExit ==
   /\ pc' = IF exc = "none" THEN "returned" ELSE "raised"
   /\ UNCHANGED <<saved, idx, t, ending, exc, began, warnSaved, gcSaved>>
 
-Next == /\ \/ WarnEnter \/ GSetup \/ LSetup \/ TStart \/ TBody \/ TStop
-           \/ TGcOpen \/ TGcClose
-           \/ ETeardown \/ GTeardown \/ WarnExit
-        /\ UNCHANGED <<Opts, PreHooks, PreDebug, GBits, v4>>
+(* ---- a run inside a test of a run ----------------------------------------- *)
+Frame == [saved |-> saved, pc |-> "tbodyN", idx |-> idx, t |-> t, ending |-> ending,
+          exc |-> exc, began |-> began, warnSaved |-> warnSaved, gcSaved |-> gcSaved,
+          Opts |-> Opts, GBits |-> GBits, v4 |-> v4, g0 |-> g0]
+Shared == IF "SharedSaveSlot" \in Deviations THEN TbSlot ELSE {}
+
+(* the first test of a run calls run_internal: the pipeline starts over on top  *)
+(* of the globals as they are now.  Not enumerated: a second profiler inside a  *)
+(* profiled run (refused by the interpreter before the inner test phase) and    *)
+(* --coverage inside a --coverage run (TestTrace.stop puts back the sys.settrace *)
+(* of import time, not the enclosing tracer's wrapper: reported separately)     *)
+NestPush ==
+  /\ pc = "tbody" /\ nest /\ t = 1 /\ Len(stack) < MaxNest
+  /\ stack' = Append(stack, Frame)
+  /\ \E o \in SUBSET InnerOptUniverse, e \in InnerEndings :
+       /\ OkCombo(o, e) /\ e # "gcWinKbint"
+       /\ \A x \in {"profile", "coverage"} :
+            x \in o => /\ x \notin Opts
+                       /\ \A i \in 1..Len(stack) : x \notin stack[i].Opts
+       /\ Opts' = o /\ ending' = e
+  /\ GBits' \in (IF "G" \in Opts' THEN GChoices ELSE {{}})
+  /\ v4' = FALSE
+  /\ g0' = g /\ g' = g
+  /\ saved' = [x \in Globals |-> IF x \in Shared THEN saved[x] ELSE FreshSaved[x]]
+  /\ pc' = "enter" /\ idx' = 0 /\ t' = 0 /\ exc' = "none" /\ began' = FALSE
+  /\ warnSaved' = <<"none", "none">> /\ gcSaved' = {}
+  /\ UNCHANGED nest
+
+(* the inner run is over: the test goes on (an ordinary exception out of the    *)
+(* inner run is this test's error; KeyboardInterrupt travels on)                *)
+NestPop ==
+  /\ pc \in {"returned", "raised"} /\ stack # <<>>
+  /\ LET f == stack[Len(stack)]
+         kb == pc = "raised" /\ exc = "kbint"
+     IN /\ stack' = SubSeq(stack, 1, Len(stack) - 1)
+        /\ saved' = [x \in Globals |-> IF x \in Shared THEN saved[x] ELSE f.saved[x]]
+        /\ pc' = IF kb THEN "tstop" ELSE f.pc
+        /\ exc' = IF kb THEN "kbint" ELSE f.exc
+        /\ idx' = f.idx /\ t' = f.t /\ ending' = f.ending /\ began' = f.began
+        /\ warnSaved' = f.warnSaved /\ gcSaved' = f.gcSaved
+        /\ Opts' = f.Opts /\ GBits' = f.GBits /\ v4' = f.v4 /\ g0' = f.g0
+  /\ UNCHANGED <<g, nest>>
+
+RunStep == /\ \/ WarnEnter \/ GSetup \/ LSetup \/ TStart \/ TBody \/ TStop
+              \/ TGcOpen \/ TGcClose
+              \/ ETeardown \/ GTeardown \/ WarnExit
+           /\ UNCHANGED <<Opts, GBits, v4, g0, stack, nest>>
+Next == /\ \/ RunStep \/ NestPush \/ NestPop
+        /\ UNCHANGED <<PreHooks, PreDebug>>
 
 Spec == Init /\ [][Next]_vars /\ WF_vars(Next)
 
@@ -306,9 +402,10 @@ HookGlobals == {"sysTrace", "thrTrace", "sysProfile"}
 (* (a test that leaks its own replacement of sys.stdout while the runner does  *)
 (* not manage the streams (no --buffer) has changed it itself)                 *)
 OwnLeak == IF ending = "redirKbint" /\ "buffer" \notin Opts THEN {"stdout"} ELSE {}
-Restored == Done /\ began => \A x \in Globals \ (HookGlobals \cup OwnLeak) : g[x] = G0[x]
-HooksRestored == Done /\ began => \A x \in HookGlobals : g[x] = G0[x]
-Terminates == <>Done
+(* per run, nested or not: what the run found is what it leaves                *)
+Restored == Done /\ began => \A x \in Globals \ (HookGlobals \cup OwnLeak) : g[x] = g0[x]
+HooksRestored == Done /\ began => \A x \in HookGlobals : g[x] = g0[x]
+Terminates == <>(Done /\ stack = <<>>)
 
 (* what the globals look like while tests run (conformance of the mid-run    *)
 (* snapshot taken inside a test body)                                        *)
@@ -321,12 +418,13 @@ PredictedMid ==
   \cup {"tbFormat", "tbPrint"}
   \cup (IF "warnings" \in Opts THEN {"warnFilters"} ELSE {})
   \cup (IF "buffer" \in Opts THEN {"stdout", "stderr"} ELSE {})
-MidAsPredicted == pc = "tbody" => MidChanged \ {"warnFilters"} = PredictedMid \ {"warnFilters"}
+InOuterBody == pc \in {"tbody", "tbodyN"} /\ stack = <<>>   \* ("tbodyN": a nested run is over)
+MidAsPredicted == InOuterBody => MidChanged \ {"warnFilters"} = PredictedMid \ {"warnFilters"}
 (* the debug flags bit by bit: while a test runs they are exactly what -G      *)
 (* names (the caller's without -G); inside stopTest's analysis window exactly   *)
 (* DEBUG_SAVEALL                                                               *)
 MidDebug == IF "G" \in Opts THEN GBits ELSE PreDebug
 WinDebug == {SaveAll}
-DebugAsPredicted == /\ pc = "tbody" => g["gcDebug"] = MidDebug
-                    /\ pc = "tgcwin" => g["gcDebug"] = WinDebug
+DebugAsPredicted == /\ InOuterBody => g["gcDebug"] = MidDebug
+                    /\ pc = "tgcwin" /\ stack = <<>> => g["gcDebug"] = WinDebug
 =============================================================================
